@@ -499,7 +499,7 @@ func zzCheckCache(c *Client, cur []Tunnel, when string) {
 // --- symbolic inputs --------------------------------------------------------------------------------------------------
 
 var zzModes = []struct{ mode, host string }{
-	{"", ""}, {"hostname", ""}, {"", "X"}, {"custom", "X"}, {"target", ""},
+	{"", ""}, {"", "X"}, {"hostname", ""}, {"custom", "X"}, {"target", ""},
 }
 
 // zzTunnel: one tunnel with every field arbitrary within the bounds. invalidOK: the target may be one that
